@@ -19,6 +19,8 @@ ENGINES = {
     'E3': 'vf.engines.e3',
     'E4': 'vf.engines.e4',
     'E5': 'vf.engines.e5',
+    'E6': 'vf.engines.e6',
+    'E7': 'vf.engines.e7',
     'E9': 'vf.engines.e9',
 }
 
